@@ -44,6 +44,8 @@ def is_d3(e):
     zero bytes between the tag and offset 48), new value in 0..4, right key."""
     if e.get("e") != "op" or not e.get("has_orig") or e["key"] != e["oKey"]:
         return False
+    if e.get("cls") != "tamper":
+        return False      # the finding is about an ALTERED finished file; a crash state or any other class showing the same symptom is reported
     C, O = e["C"], e["oC"]
     if len(C) != len(O) or len(C) < 74 or C[8] == O[8] or C[8] > 4:
         return False
